@@ -14,30 +14,34 @@ theorem hasKey_iff (s : Store) (subj id : String) :
 
 theorem validateRegistration_ok (e : Nat) (vp : VP) :
     validateRegistration e vp = .ok () ↔
-      ((∀ c ∈ vp.creds, ∀ ce, c.exp = some ce → e ≤ ce) ∧ vp.pex = .matched vp.creds.length) := by
+      (vp.creds.any (fun c => !c.hasId) = false ∧
+       (∀ c ∈ vp.creds, ∀ ce, c.exp = some ce → e ≤ ce) ∧ vp.pex = .matched vp.creds.length) := by
   unfold validateRegistration
   constructor
   · intro h
     split at h
     · cases h
-    · rename_i hany
+    · rename_i hid
       split at h
       · cases h
-      · rename_i n hp
+      · rename_i hany
         split at h
         · cases h
-        · rename_i hn
-          refine ⟨?_, ?_⟩
-          · intro c hc ce hce
-            apply Nat.le_of_not_lt
-            intro hlt
-            apply hany
-            simp only [List.any_eq_true]
-            exact ⟨c, hc, by simp [Cred.expiresBefore, hce, hlt]⟩
-          · have : n = vp.creds.length := by
-              apply Decidable.byContradiction; intro hne; exact hn hne
-            rw [hp, this]
-  · rintro ⟨h1, h2⟩
+        · rename_i n hp
+          split at h
+          · cases h
+          · rename_i hn
+            refine ⟨by simpa using hid, ?_, ?_⟩
+            · intro c hc ce hce
+              apply Nat.le_of_not_lt
+              intro hlt
+              apply hany
+              simp only [List.any_eq_true]
+              exact ⟨c, hc, by simp [Cred.expiresBefore, hce, hlt]⟩
+            · have : n = vp.creds.length := by
+                apply Decidable.byContradiction; intro hne; exact hn hne
+              rw [hp, this]
+  · rintro ⟨h0, h1, h2⟩
     have hany : ¬ (vp.creds.any (fun c => c.expiresBefore e) = true) := by
       simp only [List.any_eq_true]
       rintro ⟨c, hc, hx⟩
@@ -47,8 +51,14 @@ theorem validateRegistration_ok (e : Nat) (vp : VP) :
         simp [Cred.expiresBefore, hce] at hx
         have := h1 c hc ce hce
         omega
-    rw [if_neg hany, h2]
+    rw [h0, if_neg hany, h2]
     simp
+
+theorem Acceptable.credsHaveId {d : Def} {side : Side} {s : Store} {now : Nat} {vp : VP} {subj : String} {e : Nat}
+    (h : Acceptable d side s now vp subj e) : vp.creds.any (fun c => !c.hasId) = false := by
+  cases hr : vp.retraction with
+  | true => rw [(h.retraction hr).1]; rfl
+  | false => exact (h.registration hr).1
 
 theorem validateRetraction_ok (s : Store) (subj : String) (vp : VP) :
     validateRetraction s subj vp = .ok () ↔
@@ -156,7 +166,8 @@ def addOk (s : Store) (now : Nat) (vp : VP) (subj id : String) (e seed ts : Nat)
              nextPk := s1.nextPk + 1 }, row)
 
 theorem add_eq (s : Store) (now : Nat) (vp : VP) (seed ts fresh : Nat) (subj m id : String) (e : Nat)
-    (hs : vp.signer = some (subj, m)) (hi : vp.id = some id) (he : vp.exp = some e) (hj : vp.jwt = true) :
+    (hs : vp.signer = some (subj, m)) (hi : vp.id = some id) (he : vp.exp = some e) (hj : vp.jwt = true)
+    (hc : vp.creds.any (fun c => !c.hasId) = false) :
     s.add now vp seed ts fresh =
       ((addOk s now vp subj id e
           (if ts = 0 then (if s.seed = 0 then (if seed = 0 then fresh else seed) else s.seed) else seed)
@@ -165,7 +176,8 @@ theorem add_eq (s : Store) (now : Nat) (vp : VP) (seed ts fresh : Nat) (subj m i
           (if ts = 0 then (if s.seed = 0 then (if seed = 0 then fresh else seed) else s.seed) else seed)
           (if ts = 0 then s.lastTs + 1 else ts)).2) := by
   unfold Store.add addOk
-  simp [hs, hi, he, hj, Store.prune]
+  simp only [hs, hi, he, hj, hc]
+  simp [Store.prune]
   rfl
 
 theorem register_cases (d : Def) (s : Store) (now fresh : Nat) (vp : VP) :
@@ -185,7 +197,7 @@ theorem register_cases (d : Def) (s : Store) (now fresh : Nat) (vp : VP) :
     | false =>
       right
       refine ⟨subj, e, id, hA, hid, hk, ?_⟩
-      have := add_eq s now vp 0 0 fresh subj m id e hsig hid hA.exp hA.jwt
+      have := add_eq s now vp 0 0 fresh subj m id e hsig hid hA.exp hA.jwt hA.credsHaveId
       simp only [if_true] at this
       simp [register, hv, hsig, hid, hk, this, addOk, Store.prune]
 
@@ -219,7 +231,7 @@ theorem mem_addOk {s : Store} {now : Nat} {vp : VP} {subj id : String} {e seed t
 
 theorem sinv_addOk (s : Store) (now : Nat) (vp : VP) (subj m id : String) (e seed : Nat) (h : SInv s)
     (hs : vp.signer = some (subj, m)) (hi : vp.id = some id) (he : vp.exp = some e) (hj : vp.jwt = true)
-    (hseed : seed ≠ 0) :
+    (hcr : vp.creds.any (fun c => !c.hasId) = false) (hseed : seed ≠ 0) :
     SInv (addOk s now vp subj id e seed (s.lastTs + 1)).1 := by
   have hsub : ∀ r, r ∈ ((s.prune now).rows.filter (fun r => !(r.subject == subj))) → r ∈ s.rows :=
     fun r hr => (mem_kept.mp hr).1
@@ -261,7 +273,7 @@ theorem sinv_addOk (s : Store) (now : Nat) (vp : VP) (subj m id : String) (e see
     rcases mem_addOk.mp hr with ⟨h1, _, _⟩ | h1
     · exact h.wf r h1
     · subst h1
-      exact ⟨⟨m, hs⟩, hi, he, hj⟩
+      exact ⟨⟨m, hs⟩, hi, he, hj, hcr⟩
 
 theorem sinv_setValidated {s : Store} (pk : Nat) (h : SInv s) : SInv (s.setValidated pk) :=
   ⟨h.sorted, h.bound, h.onePer, h.seed0, h.seedPos, h.wf⟩
@@ -306,7 +318,7 @@ theorem serverOK_register (d : Def) (s : Store) (t fresh : Nat) (vp : VP) (hf : 
     obtain ⟨m, hsig, _⟩ := hA.signer
     have hseed : (if s.seed = 0 then fresh else s.seed) ≠ 0 := by
       split <;> assumption
-    refine ⟨sinv_setValidated _ (sinv_addOk s t vp subj m id e _ hi hsig hid hA.exp hA.jwt hseed), ?_⟩
+    refine ⟨sinv_setValidated _ (sinv_addOk s t vp subj m id e _ hi hsig hid hA.exp hA.jwt hA.credsHaveId hseed), ?_⟩
     intro r hr
     have hr' : r ∈ (addOk s t vp subj id e (if s.seed = 0 then fresh else s.seed) (s.lastTs + 1)).1.rows := hr
     rcases mem_addOk.mp hr' with ⟨h1, _, _⟩ | h1
@@ -354,14 +366,14 @@ theorem clientLoop_cons (d : Def) (now seed ts : Nat) (c : Store) (ctr : Nat) (v
     (subj id : String) (e : Nat) (h : VPWF vp subj id e) :
     clientLoop d now seed ts c ctr (vp :: rest) =
       clientLoop d now seed ts (clientIter d now seed ts c ctr vp subj id e).1 (clientIter d now seed ts c ctr vp subj id e).2 rest := by
-  obtain ⟨⟨m, hs⟩, hi, he, hj⟩ := h
+  obtain ⟨⟨m, hs⟩, hi, he, hj, hcr⟩ := h
   unfold clientIter
   conv => lhs; unfold clientLoop
   simp only [hs, hi]
   cases hk : c.hasKey subj id with
   | true => simp
   | false =>
-    have := add_eq c now vp seed ts (ctr + 1) subj m id e hs hi he hj
+    have := add_eq c now vp seed ts (ctr + 1) subj m id e hs hi he hj hcr
     simp only [Bool.false_eq_true, if_false]
     rw [this]
     simp only [seedOf, tsOf]
@@ -800,7 +812,7 @@ theorem winv_register {K : VP → Prop} (hK : IdFun K) (cfg : Cfg) (d : Def) (w 
     have hmono' := hmono hok subj m e hsig hA.exp
     rw [hreg]
     have hseedne : (if w.S.seed = 0 then w.ctr + 1 else w.S.seed) ≠ 0 := by split <;> omega
-    have hsinv := sinv_addOk w.S w.t vp subj m id e _ h.srv hsig hid hA.exp hA.jwt hseedne
+    have hsinv := sinv_addOk w.S w.t vp subj m id e _ h.srv hsig hid hA.exp hA.jwt hA.credsHaveId hseedne
     have hmem : ∀ r, r ∈ (addOk w.S w.t vp subj id e (if w.S.seed = 0 then w.ctr + 1 else w.S.seed) (w.S.lastTs + 1)).1.rows ↔
         (r ∈ w.S.rows ∧ ¬ r.exp < w.t ∧ r.subject ≠ subj) ∨
           r = (addOk w.S w.t vp subj id e (if w.S.seed = 0 then w.ctr + 1 else w.S.seed) (w.S.lastTs + 1)).2 := fun r => mem_addOk
@@ -1344,7 +1356,9 @@ theorem validateRegistration_ne_panic (e : Nat) (vp : VP) (p : String) : validat
   · simp
   · split
     · simp
-    · split <;> simp
+    · split
+      · simp
+      · split <;> simp
 
 theorem verify_ne_panic (d : Def) (s : Store) (now : Nat) (side : Side) (vp : VP) (p : String) :
     verify d s now side vp ≠ .panic p := by
@@ -1394,7 +1408,7 @@ theorem register_ne_panic (d : Def) (s : Store) (now fresh : Nat) (vp : VP) (p :
       | true => rw [hk] at ho; simp at ho
       | false =>
         rw [hk] at ho
-        have := add_eq s now vp 0 0 fresh subj m id e hsig hid hA.exp hA.jwt
+        have := add_eq s now vp 0 0 fresh subj m id e hsig hid hA.exp hA.jwt hA.credsHaveId
         simp only [Bool.false_eq_true, if_false] at ho
         rw [this] at ho
         simp at ho
@@ -1412,7 +1426,7 @@ theorem register_ok_iff (d : Def) (s : Store) (now fresh : Nat) (vp : VP) :
   · rintro ⟨subj, e, id, hA, hid, hk⟩
     have hv := (verify_ok_acceptable d .server s now vp).mpr ⟨subj, e, hA⟩
     obtain ⟨m, hsig, _⟩ := hA.signer
-    have := add_eq s now vp 0 0 fresh subj m id e hsig hid hA.exp hA.jwt
+    have := add_eq s now vp 0 0 fresh subj m id e hsig hid hA.exp hA.jwt hA.credsHaveId
     unfold register
     simp only [hv, hsig, hid, hk, Bool.false_eq_true, if_false]
     rw [this]
